@@ -51,6 +51,25 @@ def apply_handlers(table, value):
     return value
 
 
+def exception_factories():
+    """What the registry's failing callable raises: ordinary exceptions and the
+    library's own (a gateway relaying what its ServerProxy raised)"""
+    import xmlrpc.client as X
+    from jsonrpclib import jsonrpc as J
+
+    return [
+        lambda: ValueError("bad thing"),
+        lambda: KeyError("missing"),
+        lambda: RuntimeError(""),
+        lambda: OSError(13, "denied"),
+        lambda: J.ProtocolError(("E_NOT_FOUND", "upstream said no")),
+        lambda: J.ProtocolError((-32000.5, {"text": "structured"})),
+        lambda: J.AppError((404, "not found", {"detail": [1]})),
+        lambda: J.TransportError("http://upstream/rpc", 503, "busy", {}),
+        lambda: X.Fault(7, "xml fault"),
+    ]
+
+
 class RawValue(object):
     """A Python value returned by a callable whose way through the handler table
     and the JSON encoder the model still has to follow"""
